@@ -14,8 +14,9 @@ import ast
 import re
 import struct
 
+from .. import linear
 from ..model import unparse, walk_body_shallow
-from .util import call_name, call_recv, calls_in, need, node_assign_value, node_writes_attr, norm, where
+from .util import const_value, call_name, call_recv, calls_in, need, node_assign_value, node_writes_attr, norm, where
 
 TECHNIQUE = "dominance of the CRC check, interval analysis of reader cursors, consumption check of count loops, " \
             "who-may-call struct.unpack"
@@ -146,53 +147,46 @@ def run(ctx):
     hs2 = [n for n in cf.nodes if n.kind == "except"]
     r.check(not hs2, "%s#no-handlers" % dm.qname, "_decode_message swallows exceptions", where(dm, dm.node))
 
-    # ---- R4 cursor monotonicity of the primitives
+    # ---- R4 cursor monotonicity of the primitives (linear symbolic evaluation of every return path)
     r = ctx.rule("R4", "readers: on every normal exit the returned cursor >= input cursor + prefix and <= len(data)", 3, "E")
-    for name, prefix in (("read_short_bytes", 2), ("read_int_string", 4)):
+    for name in ("read_short_bytes", "read_int_string", "relative_unpack"):
         f = ctx.func("_util:" + name)
         c = ctx.cfg(f)
-        fa = ctx.facts(f)
-        dp, cp = f.params[0], f.params[1]
-        lens = [x for x in walk_body_shallow(f.body) if isinstance(x, ast.Assign) and isinstance(x.value, ast.Call) and call_name(x.value) == "unpack"]
-        need(len(lens) == 1, "length decode not found in %s" % name)
-        tgt = lens[0].targets[0]
-        lv = unparse(tgt.elts[0]) if isinstance(tgt, ast.Tuple) else unparse(tgt)
-        okfmt = isinstance(lens[0].value.args[0], ast.Constant) and struct.calcsize(lens[0].value.args[0].value) == prefix
-        rets = [n for n in c.nodes if n.kind == "stmt" and isinstance(n.stmt, ast.Return)]
-        problems = []
-        for n in rets:
-            v = n.stmt.value
-            cur_e = norm(v.elts[1]) if isinstance(v, ast.Tuple) and len(v.elts) == 2 else None
-            if cur_e == "%s + %d" % (cp, prefix):
-                if ("len(%s) < %s + %d" % (dp, cp, prefix), False) not in fa[n.id]:
-                    problems.append("null arm returns without the prefix bounds check")
-            elif cur_e == "%s + %s" % (cp, lv):
-                lb, _ = lower_bound(fa[n.id], lv)
-                if lb is None or lb < 0:
-                    problems.append("length `%s` has lower bound %s at the final return (must be >= 0): cursor can move backwards" % (lv, lb))
-                if ("len(%s) < %s + %s" % (dp, cp, lv), False) not in fa[n.id]:
-                    problems.append("no upper bounds check before the final return")
-                incs = [m for m in c.nodes if m.kind == "stmt" and isinstance(m.stmt, ast.AugAssign) and unparse(m.stmt.target) == cp and
-                        isinstance(m.stmt.op, ast.Add) and norm(m.stmt.value) == str(prefix)]
-                if not (incs and c.dominates([incs[0].id], n.id)):
-                    problems.append("prefix not added to the cursor")
-            else:
-                problems.append("unrecognised cursor expression %s" % cur_e)
-        r.check(okfmt and not problems and len(rets) == 2, "_util:%s#cursor-monotone" % name, "; ".join(problems) or "unexpected shape",
-                where(f, f.node), "a length < -1 passes `len(data) < cur + n`, the cursor moves backwards and a count-driven decoder "
-                "loop makes no progress: a 31-byte reply can claim 2**31-1 iterations", facts=["prefix=%d length var=%s" % (prefix, lv)])
-    f = ctx.func("_util:relative_unpack")
-    c = ctx.cfg(f)
-    fa = ctx.facts(f)
-    rets = [n for n in c.nodes if n.kind == "stmt" and isinstance(n.stmt, ast.Return)]
-    sz = [x for x in walk_body_shallow(f.body) if isinstance(x, ast.Assign) and norm(x.value) == "struct.calcsize(%s)" % f.params[0]]
-    ok = len(rets) == 1 and len(sz) == 1
-    if ok:
-        sv = unparse(sz[0].targets[0])
-        v = rets[0].stmt.value
-        ok = isinstance(v, ast.Tuple) and norm(v.elts[1]) == "%s + %s" % (f.params[2], sv) and (
-            "len(%s) < %s + %s" % (f.params[1], f.params[2], sv), False) in fa[rets[0].id]
-    r.check(ok, "_util:relative_unpack#cursor-monotone", "relative_unpack does not bounds-check and advance by calcsize(fmt)", where(f, f.node))
+        const = lambda e, _f=f: const_value(prog, _f, e)  # noqa: E731
+        if name == "relative_unpack":
+            dp, cp, prefix = f.params[1], f.params[2], 0
+            okfmt = True
+        else:
+            dp, cp = f.params[0], f.params[1]
+            ups = [x for x in walk_body_shallow(f.body) if isinstance(x, ast.Call) and call_name(x) == "unpack"]
+            need(len(ups) == 1, "length decode not found in %s" % name)
+            fmt = const(ups[0].args[0])
+            prefix = {"read_short_bytes": 2, "read_int_string": 4}[name]
+            okfmt = isinstance(fmt, str) and fmt[:1] in "!>" and struct.calcsize(fmt) == prefix
+        problems, npaths = [], 0
+        loops = [n for n in c.nodes if n.kind in ("for",) or (n.kind == "test" and isinstance(n.stmt, ast.While))]
+        if loops:
+            problems.append("reader contains a loop (not evaluated)")
+        for rn, env, cons in linear.run_paths(c, f.params, const):
+            npaths += 1
+            v = rn.stmt.value
+            if not (isinstance(v, ast.Tuple) and len(v.elts) == 2):
+                problems.append("return at line %d is not a (value, cursor) pair" % rn.lineno)
+                continue
+            newcur = linear.lin_of(v.elts[1], env, const)
+            cur0, ln = linear.Lin.atom(cp), linear.Lin.atom("len(%s)" % dp)
+            if newcur is None:
+                problems.append("cursor returned at line %d is not a linear expression" % rn.lineno)
+                continue
+            if not linear.entails_ge0(newcur - cur0 - linear.Lin(prefix), cons):
+                problems.append("line %d: returned cursor `%r` is not provably >= %s + %d (a length below 0 moves the cursor backwards)" % (
+                    rn.lineno, newcur, cp, prefix))
+            if not linear.entails_ge0(ln - newcur, cons):
+                problems.append("line %d: returned cursor `%r` is not provably <= len(%s) (no bounds check on this path)" % (rn.lineno, newcur, dp))
+        r.check(okfmt and not problems and npaths >= (1 if name == "relative_unpack" else 2), "_util:%s#cursor-monotone" % name,
+                "; ".join(problems) or "length prefix format/size mismatch or no return path", where(f, f.node),
+                "a length < -1 passes `len(data) < cur + n`, the cursor moves backwards and a count-driven decoder "
+                "loop makes no progress: a 31-byte reply can claim 2**31-1 iterations", facts=["prefix=%d return paths=%d" % (prefix, npaths)])
 
     # ---- R5 count loops consume
     r = ctx.rule("R5", "every count-driven loop of a decoder passes a checked read on every path through its body", 19, "B")
